@@ -542,8 +542,11 @@ func runREG(c *Ctx, r *Result, rule string) {
 						src = "time"
 					}
 				case *ssa.UnOp:
-					if fa, ok := a.X.(*ssa.FieldAddr); ok && fieldKey(fa.X.Type(), fa.Field) == repoModule+".Expr.registry" {
-						src = "registry"
+					// the expression's own registry: the map-typed field of the receiver
+					if fa, ok := a.X.(*ssa.FieldAddr); ok && len(f.Params) > 0 && fa.X == f.Params[0] {
+						if _, isMap := a.Type().Underlying().(*types.Map); isMap {
+							src = "registry"
+						}
 					}
 				}
 				seq = append(seq, "bindAll:"+src)
@@ -586,7 +589,8 @@ func isValidatorCall(call *ssa.Call, validator string, depth int) (direct bool, 
 	if cal.Name() == validator {
 		return true, false
 	}
-	if depth >= 2 || len(cal.Blocks) == 0 || cal.Signature.Results().Len() != 1 || !isErrorType(cal.Signature.Results().At(0).Type()) {
+	nres := cal.Signature.Results().Len()
+	if depth >= 2 || len(cal.Blocks) == 0 || nres == 0 || !isErrorType(cal.Signature.Results().At(nres-1).Type()) {
 		return false, false
 	}
 	nilRets := 0
@@ -595,12 +599,12 @@ func isValidatorCall(call *ssa.Call, validator string, depth int) (direct bool, 
 		if !ok {
 			continue
 		}
-		if k, isK := ret.Results[0].(*ssa.Const); isK && k.IsNil() {
+		if k, isK := ret.Results[nres-1].(*ssa.Const); isK && k.IsNil() {
 			nilRets++
 			if !blockValidated(cal, b, validator, depth+1) {
 				return false, false
 			}
-		} else if !definitelyNonNil(ret.Results[0], b) {
+		} else if !definitelyNonNil(ret.Results[nres-1], b) {
 			return false, false
 		}
 	}
@@ -639,7 +643,10 @@ func blockValidated(f *ssa.Function, target *ssa.BasicBlock, validator string, d
 			}
 			if call != nil {
 				direct, wrapper := isValidatorCall(call, validator, depth)
-				_, isExtract := cond.X.(*ssa.Extract)
+				ex, isExtract := cond.X.(*ssa.Extract)
+				if isExtract && ex.Index != call.Call.Signature().Results().Len()-1 {
+					direct, wrapper = false, false // not the error result
+				}
 				if (direct && isExtract) || wrapper {
 					if k, isK := cond.Y.(*ssa.Const); isK && k.IsNil() {
 						if cond.Op.String() == "!=" {
